@@ -2,6 +2,8 @@
 same trace grammar as the Lean driver (`op ...` blocks)."""
 from __future__ import annotations
 
+import os
+
 import asyncio
 import datetime as dtm
 
@@ -13,8 +15,13 @@ from build import build_trigger  # noqa: E402
 from vclock import VLoop, drain, drain_tasks, instant_of_ns, ns_of_instant, run_virtual, vsleep  # noqa: E402
 
 
-class HarnessError(BaseException):
-    pass
+class HarnessError(SystemExit):
+    """raised by the watchdog: asyncio re-raises SystemExit from callbacks and tasks (any other exception raised inside
+    a loop callback is only logged and the loop goes on)"""
+
+
+class Runaway(HarnessError):
+    """the real scheduler starts one job again and again while the clock stands still"""
 
 
 class NoHandle(Exception):
@@ -108,6 +115,7 @@ class SchedImpl:
         self.auto_key: dict[object, int] = {}
         self.cb_fail: set[int] = set()
         self.exec_count: dict[int, int] = {}
+        self.same_instant: list = [None, 0]
 
     # ---- callables
     def _mk_callable(self, h: int, exec_fail: list[int]):
@@ -117,6 +125,16 @@ class SchedImpl:
             n = impl.exec_count.get(h, 0)
             impl.exec_count[h] = n + 1
             impl.out.append(f'exec {h} {impl.loop.now_ns - impl.base}')
+            # a job is started at most once per instant (every reschedule lies strictly in the future): a job that is
+            # started again and again while the clock stands still would fill the memory long before the watchdog ends it
+            key = (h, impl.loop.now_ns)
+            if impl.same_instant[0] == key:
+                impl.same_instant[1] += 1
+                if impl.same_instant[1] > 200:
+                    raise Runaway(f'job {h} was started more than 200 times at the instant {impl.loop.now_ns} '
+                                  f'(the clock did not move in between)')
+            else:
+                impl.same_instant = [key, 1]
             if n in exec_fail:
                 raise CallableError()
 
@@ -189,9 +207,11 @@ class SchedImpl:
             b_plain = JobBuilder(sched, ex)
             cbs: dict[tuple[str, int], CbObj] = {}
             blocks = []
-            for line in lines:
+            for li, line in enumerate(lines):
                 tok = line.split()
-                assert tok[0] == 'op'
+                # `op!`: issued directly after the previous operation, before the loop gets to run anything
+                assert tok[0] in ('op', 'op!')
+                tight_next = li + 1 < len(lines) and lines[li + 1].startswith('op! ')
                 op = tok[1]
                 self.out = []
                 ret = 'ret ok'
@@ -208,7 +228,17 @@ class SchedImpl:
                         fn = self._mk_callable(h, ef)
                         if kind == 'once':
                             t = int(tok[5].rstrip(')'))
-                            c = builder.once(instant_of_ns(t + self.base), fn, **kw)
+                            when = instant_of_ns(t + self.base)
+                            # the same instant said in the ways the API accepts: Instant, aware datetime (UTC / another
+                            # fixed offset), SystemDateTime
+                            variant = (h + self.seed) % 4 if (t + self.base) % 1000 == 0 else 0
+                            if variant == 1:
+                                when = when.py_datetime()
+                            elif variant == 2:
+                                when = when.to_system_tz()
+                            elif variant == 3:
+                                when = when.py_datetime().astimezone(dtm.timezone(dtm.timedelta(hours=5, minutes=30)))
+                            c = builder.once(when, fn, **kw)
                         elif kind == 'countdown':
                             secs = int(tok[5].rstrip(')'))
                             c = builder.countdown(TimeDelta(nanoseconds=secs), fn, **kw)
@@ -267,7 +297,7 @@ class SchedImpl:
                     if name in ('AttributeError', 'NotImplementedError'):
                         name = 'NotImplemented'
                     ret = f'ret err {name}'
-                if op not in ('yield', 'sleep', 'sleepl', 'advance'):
+                if op not in ('yield', 'sleep', 'sleepl', 'advance') and not tight_next:
                     # coroutines started by this operation begin in the next loop iteration, before any timer
                     await drain_tasks(loop)
                 blocks.append([ret, *self.out, *self._state()])
@@ -277,12 +307,23 @@ class SchedImpl:
             po.uniform = old_uniform
 
     def run(self, lines: list[str]) -> list[list[str]]:
+        import resource
         import signal
+        import time as _time
+        t0 = _time.time()
+        rss0 = resource.getrusage(resource.RUSAGE_SELF).ru_maxrss      # kB
+        budget = float(os.environ.get('VERIF_SCHED_WATCHDOG', '20'))
 
         def _alarm(*_a):
-            raise HarnessError('the scheduler does not return (watchdog)')
+            # polled once per second: the history takes milliseconds; a scheduler that spins (with or without the clock
+            # moving) is stopped after `budget` seconds or when it has allocated 1.5 GB, whichever comes first
+            grown = resource.getrusage(resource.RUSAGE_SELF).ru_maxrss - rss0
+            if _time.time() - t0 > budget:
+                raise HarnessError('the scheduler does not return (watchdog)')
+            if grown > 1_500_000:
+                raise HarnessError('the scheduler does not return and keeps allocating memory (watchdog)')
         old = signal.signal(signal.SIGALRM, _alarm)
-        signal.setitimer(signal.ITIMER_REAL, 60.0)
+        signal.setitimer(signal.ITIMER_REAL, 1.0, 1.0)
         try:
             # a third of the cases run with a loop clock that is ahead of the wall clock (timers fire early)
             skew = [0, 0, 250_000, 5_000_000][self.seed % 4] if self.skew is None else self.skew
